@@ -9,6 +9,10 @@ REPO = os.environ.get("VERIF_REPO", "/repo")
 class H:
     def __init__(self, name, body, props, desc, cfg="std", expect="pass", tier="quick",
                  unwind=None, cost=5, timeout=1200, args="", seed_pick=None, fast=None):
+        if cfg == "serde" and unwind is None:
+            # string comparisons of field / variant names are memcmp loops: bound them
+            unwind = 24
+            fast = False
         self.name = name
         self.body = body          # Rust path below crate::, generic over Nd
         self.props = props        # property ids this harness serves
@@ -406,6 +410,79 @@ add("poll_twin", "poll::twin", ["C12", "C13", "C14", "C15", "C16", "C17"], "witn
     expect="witness_fail", unwind=17)
 
 # ------------------------------------------------------------------------------------------------
+# C18, C19
+# ------------------------------------------------------------------------------------------------
+prop("C18",
+     bounds="every harness of the suite that calls the API with valid input is compiled with "
+            "std::alloc::{alloc, alloc_zeroed, realloc} replaced by a failing assertion (-Z stubbing) and "
+            "with Kani's default checks (arithmetic overflow, index out of bounds, unwrap/expect/"
+            "unreachable!/assert! failures) on, so reaching an allocation or a panic on ANY input of those "
+            "symbolic domains is a failed check; documented panics are exactly the *_must_panic harnesses "
+            "(call must not return) whose twins with valid arguments verify cleanly; quick = the harnesses "
+            "with an estimated cost of at most 45 s plus the scanner steps of two channels; thorough = all",
+     outside="the real Instant::now() (hooked out); the panic machinery itself after a documented panic; "
+             "Display with width/fill flags; to_string() (allocates in the caller by definition)")
+add("c18_w_box", "c18::w_box", ["C18"], "witness: Box::new must be caught by the allocation stub",
+    expect="witness_fail")
+add("c18_w_vec", "c18::w_vec", ["C18"], "witness: Vec::push must be caught by the allocation stub",
+    expect="witness_fail", unwind=4, fast=False)
+add("c18_w_string", "c18::w_string", ["C18"], "witness: String::from must be caught by the allocation stub",
+    expect="witness_fail", unwind=4, fast=False)
+add("c18_w_vec_of_messages", "c18::w_vec_of_messages", ["C18"],
+    "witness: collecting encoded messages into a Vec must be caught", expect="witness_fail", unwind=4,
+    fast=False)
+
+prop("C19",
+     bounds="configuration serde + serde_repr; a self-describing token deserializer feeds the real "
+            "Deserialize impls: restricted integers from every u64 leaf; RawShortMessage from every "
+            "(u16,u16,u16) leaf triple; ControlChange14BitMessage and ParameterNumberMessage as sequence and "
+            "as map (declaration order) from every u16 / bool / variant leaf combination, variants by index "
+            "and by name; ShortMessageType from every u64; TimeCodeType / DataType from every u32 variant "
+            "index; structured variants with out-of-range field leaves; round trip of every valid value of "
+            "all public types through the token serializer",
+     outside="other key orders, duplicate or unknown keys, borrowed-bytes identifiers, non-integer leaves "
+             "for integer fields, formats that are not self-describing")
+add("c19_integers", "c19::integers", ["C19", "C04", "C18"],
+    "six restricted integer types from every u64 leaf", cfg="serde", cost=20, unwind=24, fast=False)
+add("c19_raw", "c19::raw", ["C19", "C18"],
+    "RawShortMessage from every (u16, u16, u16) leaf triple", cfg="serde", cost=30, unwind=24, fast=False)
+for _m in (0, 1):
+    add("c19_cc14_%s" % ("map" if _m else "seq"), "c19::cc14", ["C19", "C18"],
+        "ControlChange14BitMessage as %s from every (u16,u16,u16) leaf triple" % ("map" if _m else "seq"),
+        cfg="serde", args="true" if _m else "false", cost=40, unwind=24, fast=False)
+    for _bn in (0, 1):
+        add("c19_pnm_%s_%s" % ("map" if _m else "seq", "byname" if _bn else "byindex"), "c19::pnm",
+            ["C19", "C18"],
+            "ParameterNumberMessage as %s from every leaf combination, data type %s"
+            % ("map" if _m else "seq", "by name" if _bn else "by index"), cfg="serde",
+            args="%s, %s" % ("true" if _m else "false", "true" if _bn else "false"), cost=60)
+for _w, _wn in enumerate(["integers", "raw", "cc14", "pnm"]):
+    add("c19_roundtrip_%s" % _wn, "c19::roundtrip", ["C19", "C18"],
+        "serialize -> deserialize of every valid %s value" % _wn, cfg="serde", args="%d, 0" % _w, cost=40)
+for _v in range(15):
+    add("c19_roundtrip_quarter_frame_k%02d" % _v, "c19::roundtrip", ["C19", "C18"],
+        ("serialize -> deserialize of every quarter frame of kind %d" % _v) if _v < 7 else
+        ("serialize -> deserialize of the 'last' quarter frame with bits %d" % (_v - 7)), cfg="serde",
+        args="4, %d" % _v, cost=20)
+for _v in range(8):
+    add("c19_roundtrip_structured_last%d" % _v, "c19::roundtrip", ["C19", "C18"],
+        "serialize -> deserialize of StructuredShortMessage::TimeCodeQuarterFrame(Last) with bits %d" % _v,
+        cfg="serde", args="6, %d" % (100 + _v), cost=20)
+add("c19_roundtrip_message_type", "c19::roundtrip", ["C19", "C18"],
+    "serialize -> deserialize of all 23 message types", cfg="serde", args="5, 0", cost=30)
+for _v in range(23):
+    add("c19_roundtrip_structured_v%02d" % _v, "c19::roundtrip", ["C19", "C18"],
+        "serialize -> deserialize of every StructuredShortMessage value of variant #%d" % _v, cfg="serde",
+        args="6, %d" % _v, cost=40, timeout=3600)
+add("c19_enums", "c19::enums", ["C19", "C18"],
+    "ShortMessageType from every u64, TimeCodeType / DataType from every u32 variant index", cfg="serde",
+    cost=20, unwind=24, fast=False)
+add("c19_structured_fields", "c19::structured_fields", ["C19", "C18"],
+    "structured variants and quarter frames with arbitrary u16 field leaves", cfg="serde", cost=40,
+    unwind=24, fast=False)
+add("c19_twin", "c19::twin", ["C19"], "witness twin", cfg="serde", expect="witness_fail")
+
+# ------------------------------------------------------------------------------------------------
 
 def all_harnesses():
     import gen
@@ -427,6 +504,9 @@ def select(pid, tier, seed):
         if h.tier == "thorough" and tier != "thorough":
             continue
         if tier != "thorough" and h.seed_pick is not None and not h.seed_pick(seed):
+            continue
+        if pid == "C18" and tier != "thorough" and h.cost > 45 and not (
+                h.name.endswith("_ch00") or h.name.endswith("_ch15")) and h.expect == "pass":
             continue
         out.append(h)
     return out
